@@ -45,7 +45,7 @@ Print Assumptions exactly_once_after_wait.
 
 (* Idle quit and restart lose nothing: in every reachable state (i) tasks in the
    container have an owner — a flusher loop is alive (guarded) or a quitting flusher
-   has not yet done the RemoveAll of its deferred Flush; (ii) guarded means a flusher
+   (in ticker.Stop, or in its deferred Flush) has not yet done the RemoveAll of that Flush; (ii) guarded means a flusher
    with a live loop exists; (iii) while no loop is alive, no threshold batch waits to
    be taken over and no producer waits for a confirmation (so the next Add, which
    restarts the flusher, finds a consistent protocol state).  Together with
@@ -54,7 +54,7 @@ Theorem restart_safe : forall cfg n sched,
   let s := run cfg (init n) sched in
   (cont s <> [] ->
      guarded s = true \/
-     exists b f, nth_error (fl s) b = Some (BExit f) /\ (f = FEnter \/ f = FRemove)) /\
+     exists b p, nth_error (fl s) b = Some p /\ (p = BStop \/ p = BExit FEnter \/ p = BExit FRemove)) /\
   (guarded s = true -> exists b p, nth_error (fl s) b = Some p /\ loop_alive p) /\
   (guarded s = false ->
      inflight s = 0 /\ cmd s = None /\
@@ -137,13 +137,15 @@ Example ex_panic :
   executed s = [[3]] /\ lost s = [[1; 2]] /\ executed s0 = [[3]; [1; 2]] /\ core s = core s0.
 Proof. vm_compute. repeat split; reflexivity. Qed.
 
-(* idle quit with a pending restart: the flusher quits (guarded = false) while its
-   deferred Flush has not yet removed the tasks; the next Add starts a second flusher *)
+(* idle quit with a pending restart: the flusher decides to quit (guarded = false, one
+   atomic action) and is still inside ticker.Stop; an Add in that window starts a second
+   flusher; the first one then goes on to its deferred Flush *)
 Example ex_quit_restart :
   let s := run ex_cfg (init 1)
              [EvCall 0 (CAdd 1 1); EvC 0; EvB 0 false; EvTick; EvB 0 true; EvB 0 false; EvB 0 false;
               EvB 0 false; EvB 0 false; EvClock 20000; EvTick; EvB 0 true; EvB 0 false; EvB 0 false;
               EvB 0 false; EvB 0 false; EvB 0 false;
               EvCall 0 (CAdd 2 1); EvC 0] in
-  guarded s = true /\ fl s = [BExit FEnter; BStart] /\ cont s = [2] /\ executed s = [[1]].
+  guarded s = true /\ fl s = [BStop; BStart] /\ cont s = [2] /\ executed s = [[1]] /\
+  fl (exec ex_cfg s (EvB 0 false)) = [BExit FEnter; BStart].
 Proof. vm_compute. repeat split; reflexivity. Qed.
